@@ -77,7 +77,7 @@ func (a1 jsonMultiset) diff(
 		default:
 			e = DiffElement{
 				Path:   path.clone(),
-				Remove: nodeList(a1),
+				Remove: nodeList(jsonArray(a1)),
 				Add:    nodeList(n),
 			}
 		}
